@@ -49,9 +49,30 @@ CasesFor(a) ==
            ELSE {})
      \cup (IF a = SupWhole(EvenGrid(2)) THEN GridNewCases ELSE {})
 
-Init == \E g \in Grids : \E a \in SupportsOn(g) : st = [ph |-> 0, a |-> a]
+\* size sweep: grids with every number of points up to a bound (and around 64), windows at the far end, in
+\* the middle and not starting at 0; index arguments around both window ends
+SweepWins(N) == {w \in {<<0, N>>, <<1, N>>, <<N - 1, N>>, <<0, N - 1>>, <<N \div 2, N>>, <<0, (N \div 2) + 1>>, <<N - 3, N - 1>>, <<0, 0>>} :
+                   (w[1] = 0 /\ w[2] = 0) \/ (0 <= w[1] /\ w[1] < w[2] /\ w[2] <= N)}
+SweepSups == UNION {{Sup(SweepGrid(n), w[1], w[2]) : w \in SweepWins(n + 1)} : n \in {m \in SweepSizes : m >= 6}}
+NearIdx(a) == {i \in {0, 1, 2, a.s - 1, a.s, a.s + 1, a.e - a.s - 2, a.e - a.s - 1, a.e - a.s, a.e - 2, a.e - 1, a.e, a.e + 1, Len(a.g) - 1, Len(a.g), Len(a.g) + 1} : i >= 0}
+SweepCasesFor(a) ==
+  LET g == a.g
+      n == Len(g)
+  IN {[op |-> "SupRead", a |-> a]}
+     \cup {[op |-> "SupIdx", a |-> a, i |-> i, top |-> 0] : i \in NearIdx(a)} \cup {[op |-> "SupIdx", a |-> a, i |-> k, top |-> 1] : k \in 1..2}
+     \cup {[op |-> "SupBin", a |-> a, b |-> Sup(g, w[1], w[2]), share |-> sh] : w \in SweepWins(n), sh \in {0, 1}}
+     \cup (IF a = SupWhole(g)
+           THEN {[op |-> "SupBin", a |-> a, b |-> SupWhole(v), share |-> 0] : v \in GridVariants(g)}
+                \cup {[op |-> "SupBin", a |-> Sup(g, n - 1, n), b |-> Sup(v, Len(v) - 1, Len(v)), share |-> 0] : v \in GridVariants(g)}
+                \cup {[op |-> "SupNew", g |-> g, s |-> s, e |-> e, stop |-> 0, etop |-> 0] : s \in {0, 1, n - 1, n, n + 1}, e \in {0, 1, n - 1, n, n + 1}}
+                \cup {[op |-> "GridAt", g |-> g, i |-> i, top |-> 0] : i \in {0, 1, n - 2, n - 1, n, n + 1}}
+                \cup {[op |-> "GridFind", g |-> g, x |-> x] : x \in {g[k] : k \in DOMAIN g} \cup {RSub(g[1], ROne), RAdd(g[n], ROne), Mid(g, 0), Mid(g, n - 2)}}
+           ELSE {})
+
+Init == \/ \E g \in Grids : \E a \in SupportsOn(g) : st = [ph |-> 0, a |-> a, sw |-> 0]
+        \/ \E a \in SweepSups : st = [ph |-> 0, a |-> a, sw |-> 1]
 Next == /\ st.ph = 0
-        /\ \E c \in CasesFor(st.a) : st' = [ph |-> 1, c |-> c]
+        /\ \E c \in (IF st.sw = 1 THEN SweepCasesFor(st.a) ELSE CasesFor(st.a)) : st' = [ph |-> 1, c |-> c]
 Spec == Init /\ [][Next]_st
 
 Emit == (st'.ph = 1) => CSVWrite("%1$s", <<ToJson(st'.c)>>, OutFile)
@@ -85,7 +106,7 @@ TriOK == st.ph = 1 /\ st.c.op = "SupTri" =>
 \* the whole index word: model word w stands for the true index w (small) or
 \* 2^64 - (2^W - w) (large, never contained in any window)
 IsSmall(w) == w < WMod \div 2
-WordOK == st.ph = 0 =>
+WordOK == st.ph = 0 /\ st.sw = 0 =>
   LET S == st.a IN
   \A w \in 0..(WMod - 1) :
      /\ RelFromAbsI(S, w) = (IF IsSmall(w) THEN RelFromAbs(S, w) ELSE None)
